@@ -13,8 +13,9 @@ import time
 import traceback
 
 ROOT = os.path.dirname(os.path.dirname(os.path.dirname(os.path.abspath(__file__))))
-EVIDENCE_DIR = os.path.join(ROOT, "evidence")
-REPLAY_DIR = os.path.join(ROOT, "replays")
+_OUT = os.environ.get("TLMC_OUT") or ROOT  # scratch runs (seeded-defect evaluation) write elsewhere
+EVIDENCE_DIR = os.path.join(_OUT, "evidence")
+REPLAY_DIR = os.path.join(_OUT, "replays")
 FINDINGS = os.path.join(ROOT, "known_findings.json")
 MAX_REEXEC = 12  # distinct new signatures re-executed in fresh interpreters per run
 
